@@ -499,6 +499,12 @@ func mutations(onchain util.Uint256) []mutation {
 		return true
 	}})
 	attr("attr-oracle-response", one(transaction.Attribute{Type: transaction.OracleResponseT, Value: &transaction.OracleResponse{ID: 0, Code: transaction.Success, Result: []byte{1, 2, 3}}}))
+	attr("attr-oracle-response-twice", func(*chainx.Node) []transaction.Attribute {
+		return []transaction.Attribute{
+			{Type: transaction.OracleResponseT, Value: &transaction.OracleResponse{ID: 1, Code: transaction.Success, Result: []byte{1}}},
+			{Type: transaction.OracleResponseT, Value: &transaction.OracleResponse{ID: 2, Code: transaction.Success, Result: []byte{2}}},
+		}
+	})
 	add(mutation{Rule: "attr-nvb=height", Spec: func(n *chainx.Node, sp *txSpec) bool {
 		if hasAttr(sp, transaction.NotValidBeforeT) {
 			return false
